@@ -173,10 +173,16 @@ def gen_panel(rng, tier):
         n = int(case["nsamp"])
         case["no_repl"], case["only_bp"] = True, False
         # boundary panels: exactly n-1, n, n+1 reference samples per population
+        # (every population, or a single one at any position of the model header while the others have plenty)
         k = rng.choice([n - 1, n, n + 1])
         if k < 1:
             k = n
-        case["per_pop"] = k
+        if rng.random() < 0.6:
+            sp = rng.choice(case["pops"])
+            case["per_pop"] = {q: (k if q == sp else n + 2) for q in case["pops"]}
+        else:
+            case["per_pop"] = k
+        case["margin"] = k - n
         case["violation"] = "tooFewSamples" if k < n else None
         yield case
         want -= 1
@@ -259,7 +265,7 @@ CHECK = Check(
             setup=lambda: _c20("setup")(),
             teardown=lambda x: _c20("teardown")(x),
             nontrivial=lambda c, o: C.jdump(c),
-            describe=lambda c, o: f"per_pop-minus-nsamples={c['per_pop'] - int(c['nsamp'])}",
+            describe=lambda c, o: [f"smallest-population-minus-nsamples={c['margin']}", "one-population-short" if isinstance(c["per_pop"], dict) else "all-populations-equal"],
             rule="--no_replacement runs whose reference panel holds exactly n-1, n or n+1 samples per model population (n = simulated samples): n-1 must be refused by validate_params before anything is simulated, n and n+1 accepted (a later 'No available sample' is an error, never reuse)",
         ),
     ],
